@@ -105,7 +105,7 @@ pub struct SizesInfo {
 impl SizesInfo {
     /// Get the uncompressed block size of block `block_num`
     fn uncompressed_block_size_at(&self, block_num: usize) -> u32 {
-        if block_num < self.compressed_sizes.len() - 1 {
+        if block_num + 1 < self.compressed_sizes.len() {
             UNCOMPRESSED_DATA_SIZE
         } else {
             self.last_block_size
@@ -117,12 +117,15 @@ impl SizesInfo {
         let block_num = uncompressed_pos / u64::from(UNCOMPRESSED_DATA_SIZE);
         let index = usize::try_from(block_num)
             .map_err(|_| io::Error::new(io::ErrorKind::InvalidData, "Integer conversion failed"))?;
-        Ok(self.compressed_sizes[index])
+        self.compressed_sizes.get(index).copied().ok_or_else(|| {
+            io::Error::new(io::ErrorKind::InvalidData, "No compressed block at this position").into()
+        })
     }
 
     /// Maximum uncompressed available position
     fn max_uncompressed_pos(&self) -> u64 {
-        (self.compressed_sizes.len() as u64 - 1) * u64::from(UNCOMPRESSED_DATA_SIZE)
+        // An empty stream has no block at all
+        (self.compressed_sizes.len() as u64).saturating_sub(1) * u64::from(UNCOMPRESSED_DATA_SIZE)
             + u64::from(self.last_block_size)
     }
 
@@ -411,9 +414,20 @@ impl<R: Read + Seek> Seek for CompressionLayerReader<'_, R> {
         // Seeking may instantiate a decompressor, and therefore position the
         // inner layer at the end of the asked position's compressed block
         match &self.sizes_info {
-            Some(_sizes_info) => {
+            Some(sizes_info) => {
                 match pos {
                     SeekFrom::Start(pos) => {
+                        if !self.pos_in_stream(pos) {
+                            // No block to decompress there. Check it before
+                            // taking the inner layer out of the current state
+                            if pos == sizes_info.max_uncompressed_pos() {
+                                // Exactly at the end of the stream: next reads return 0
+                                self.underlayer_pos = pos;
+                                return Ok(pos);
+                            }
+                            return Err(Error::EndOfStream.into());
+                        }
+
                         // Find the right block
                         let inside_block = pos % u64::from(UNCOMPRESSED_DATA_SIZE);
                         let rounded_pos = pos - inside_block;
